@@ -18,11 +18,13 @@ pub struct Session {
     /// the package of the current session and its shared medium
     pub pkg: Option<crate::session::Pkg>,
     pub medium: Option<crate::session::Medium>,
+    /// the bytes of the medium when the current package was opened (C16)
+    pub open_bytes: Vec<u8>,
 }
 
 impl Session {
     pub fn new() -> Session {
-        Session { scratch: None, pkg: None, medium: None }
+        Session { scratch: None, pkg: None, medium: None, open_bytes: vec![] }
     }
     pub fn scratch(&mut self) -> &mut Pkg {
         if self.scratch.is_none() {
@@ -174,6 +176,7 @@ fn exec_session(sess: &mut Session, toks: &[&str]) -> Option<String> {
                 Err(e) => return Some(format!("build-err {}", kind_name(&e))),
             };
             let m = Medium::new(bytes);
+            sess.open_bytes = m.snapshot_bytes();
             sess.medium = Some(m.clone());
             return Some(match msi::Package::open(m) {
                 Ok(pkg) => {
@@ -230,6 +233,7 @@ fn exec_session(sess: &mut Session, toks: &[&str]) -> Option<String> {
             return Some(msg);
         }
         let m = sess.medium.clone().unwrap();
+        sess.open_bytes = m.snapshot_bytes();
         return Some(match msi::Package::open(m) {
             Ok(pkg) => {
                 sess.pkg = Some(pkg);
@@ -497,6 +501,33 @@ pub fn exec_line(sess: &mut Session, line: &str) -> String {
             // enc_loop <cp> <string> <per-char codes> : the real whole-string encoding
             let cp = cp_by_name(toks[1]).unwrap();
             hex_of_bytes(&cp.encode(&str_of_hex(toks[2]).unwrap()))
+        }
+        "@readonly_close" => {
+            // close the current package (which was only read since it was opened) and report
+            // how many writes reached the medium since the open and whether its bytes changed
+            let pkg = match sess.pkg.take() {
+                Some(p) => p,
+                None => return "no-package".to_string(),
+            };
+            let medium = sess.medium.clone().unwrap();
+            let res = match toks[1] {
+                "flush" => {
+                    let mut pkg = pkg;
+                    let r = pkg.flush();
+                    drop(pkg);
+                    crate::session::res_unit(r)
+                }
+                "into_inner" => match pkg.into_inner() {
+                    Ok(_) => "ok".to_string(),
+                    Err(e) => format!("err {}", crate::session::kind_name(&e)),
+                },
+                _ => {
+                    drop(pkg);
+                    "ok".to_string()
+                }
+            };
+            let st = medium.stats.borrow().clone();
+            format!("{res} writes={} same={}", st.writes, (medium.snapshot_bytes() == sess.open_bytes) as i32)
         }
         "@summary_raw" => {
             // the raw bytes of the summary stream on the medium right now (cfb only)
